@@ -70,6 +70,9 @@ def run(ctx, chk, tier):
     c10.purity(ctx, chk, only=("Scores.threshold_at_",), strict=False)
     # the achieved rate is read from cm(): its cells are the decision-rule counts (a threshold cast to the scores' dtype loses the one-ulp sentinel)
     c01.cm_cells_rule(ctx, chk)
+    # TOPR / TONR invert over the POOLED scores: both classes, sorted, neither cast to the other's dtype (R02.1)
+    from . import c02s
+    c02s.flip_parity(ctx, chk, metrics=("topr", "tonr"))
 
 
 def feval(v, env):
@@ -100,6 +103,11 @@ def feval(v, env):
         if v.fn == "fneg":
             return -feval(v.args[0], env)
         if v.fn == "len":
+            if v not in env and isinstance(v.args[0], App) and v.args[0].fn == "ite":
+                sel = v.args[0]      # the length of a selected array is the selected length
+                return feval(App("len", (sel.args[1],)), env) if fcond(sel.args[0], env) else feval(App("len", (sel.args[2],)), env)
+            if v not in env:
+                raise CannotEvaluate("length of %s" % v.key[:60])
             return env[v]
         if v.fn in ("min", "max"):
             vals = [feval(a, env) for a in v.args]
